@@ -137,6 +137,27 @@ def run_verus_unit(uname, workdir, prop=None, tier='quick'):
         line = prim[0]['line_start'] if prim else 0
         ptext = prim[0]['text'][0]['text'].strip() if prim and prim[0].get('text') else ''
         o = fn_of_line(line) if line else None
+        # a failure inside hand-written text of the unit (u.raw / preamble: helper lemmas, mirrors) belongs to no extracted function: every proof of the unit may rest on it
+        raw_name = None
+        if line and origin_of(line) is None and not (o and o.get('fn', '').startswith(('canary:', 'lemma:'))):
+            inside = False
+            for l in range(line, max(0, line - 400), -1):
+                if l - 1 < len(ulines) and ulines[l - 1].startswith('// <<< '):
+                    break
+                oo = origin_of(l)
+                if oo and oo.get('fn'):
+                    inside = True      # spliced text (contract / proof) of an extracted function
+                    break
+                mfn = re.match(r'\s*(?:pub\s+)?(?:proof\s+|open\s+spec\s+|closed\s+spec\s+|spec\s+)?fn\s+(\w+)', ulines[l - 1]) if l - 1 < len(ulines) else None
+                if mfn:
+                    raw_name = mfn.group(1)
+                    break
+            if inside:
+                raw_name = None
+        if raw_name and kind is not None:
+            # hand-written text does not depend on /repo: this can never be a violation of a property, but nothing proved with the help of that text counts
+            res['undecided'].append(f'hand-written helper `{raw_name}` of the unit does not verify ({msg} @ unit line {line}): no proof of the unit is counted')
+            continue
         if kind is None:
             if 'rlimit' in msg or 'Resource limit' in msg:
                 res['undecided'].append(f'solver resource limit in {o.get("fn") if o else "?"}: {msg}')
